@@ -194,3 +194,256 @@ def gen_loop(r, ncases, steps=40):
                 cur = r.range(-10, 300)
             ops.append(f"loop.cycle target={tgt} current={cur} now={now}")
     return ops
+
+
+# ---------------------------------------------------------------- curves
+
+FN_TYPES = ["sum", "difference", "average", "delta", "minimum", "maximum"]
+
+
+def gen_reading(r, lo_c=None, hi_c=None):
+    """a sensor reading in milli-degrees (float): boundaries ±1 m°, negatives, 0, huge, subnormal"""
+    k = r.below(10)
+    if lo_c is not None and k < 6:
+        c = r.pick([lo_c, hi_c, r.range(min(lo_c, hi_c) - 2, max(lo_c, hi_c) + 2)])
+        return float(c * 1000 + r.pick([-1, 0, 1, r.range(-1500, 1500)]))
+    if k == 6:
+        return bits2f(finite_float_bits(r))
+    if k == 7:
+        return r.pick([0.0, -1.0, 1e300, -1e300, 5e-324, 2.5])
+    if k == 8:
+        return r.range(-50000, 150000) + r.pick([0.0, 0.5, 0.25])
+    return float(r.range(-50000, 150000))
+
+
+def gen_curve_case(r, nan_ok=False, max_members=8, depth=4):
+    """one case: sensors, a DAG of curves, then evaluations. Returns op lines."""
+    ops = ["#case cv", "cv.reset"]
+    nsens = r.range(1, 3)
+    sens = [f"s{i}" for i in range(nsens)]
+    leaves = []
+    curves = []
+    info = {}
+    # leaf curves
+    nleaf = r.range(1, 4)
+    for i in range(nleaf):
+        cid = f"L{i}"
+        s = r.pick(sens)
+        kind = r.pick(["minmax", "minmax", "steps", "steps", "pid"])
+        if kind == "minmax":
+            mn = r.range(-20, 90)
+            mx = mn + r.pick([r.range(1, 60), 1, r.range(-5, 0)])
+            ops.append(f"cv.add id={cid} kind=linear sensor={s} min={mn} max={mx} steps=nil")
+            info[cid] = ("minmax", s, mn, mx)
+        elif kind == "steps":
+            steps = gen_steps(r)
+            if r.chance(0.03):
+                steps = {}
+            ops.append(f"cv.add id={cid} kind=linear sensor={s} min=0 max=0 steps={float_map_tok(steps)}")
+            ks = sorted(steps) or [0]
+            info[cid] = ("steps", s, ks[0], ks[-1])
+        else:
+            style = r.below(3)
+            if style == 0:
+                p, i_, d = -0.05, -0.005, -0.005
+            elif style == 1:
+                p, i_, d = [r.range(-200, 200) / 100.0 for _ in range(3)]
+            else:
+                p, i_, d = [bits2f(finite_float_bits(r)) for _ in range(3)]
+            sp = float(r.range(30, 80))
+            ops.append(f"cv.add id={cid} kind=pid sensor={s} sp={fx(sp)} p={fx(p)} i={fx(i_)} d={fx(d)}")
+            info[cid] = ("pid", s, 30, 80)
+        leaves.append(cid)
+        curves.append(cid)
+    # function curves (DAG: members only among earlier curves)
+    nfn = r.pick([0, 1, 1, 2, 3, 4])
+    for i in range(nfn):
+        cid = f"F{i}"
+        nm = r.pick([0, 1, 1, 2, 2, 3, 4, max_members])
+        members = [r.pick(curves) for _ in range(nm)]
+        if r.chance(0.03):
+            members.append("missing")
+        ty = r.pick(FN_TYPES) if not r.chance(0.02) else "bogus"
+        ops.append(f"cv.add id={cid} kind=function type={ty} members={','.join(members) if members else '-'}")
+        curves.append(cid)
+    now = r.range(1, 10**15)
+    for _ in range(r.range(1, 12)):
+        for s in sens:
+            # choose a leaf using this sensor to bias readings to its boundaries
+            cands = [v for v in info.values() if v[1] == s]
+            lo, hi = (None, None)
+            if cands:
+                c = r.pick(cands)
+                lo, hi = c[2], c[3]
+            avg = gen_reading(r, lo, hi)
+            val = gen_reading(r, lo, hi)
+            vtok = fx(val) if not r.chance(0.08) else "err"
+            if nan_ok and r.chance(0.05):
+                avg = float("nan")
+            ops.append(f"cv.sensor id={s} avg={fx(avg)} val={vtok}")
+        now += r.pick([0, 1, 200_000_000, 2_000_000_000, r.range(0, 10**10)])
+        ops.append(f"cv.eval id={r.pick(curves)} now={now}")
+    return ops
+
+
+def gen_curves(r, ncases, **kw):
+    ops = []
+    for _ in range(ncases):
+        ops += gen_curve_case(r, **kw)
+    return ops
+
+
+# ---------------------------------------------------------------- fans (limits)
+
+def opt_tok(v):
+    return "-" if v is None else str(v)
+
+
+def gen_rpm_data(r):
+    style = r.below(7)
+    if style == 0:
+        return None
+    if style == 1:
+        return {}
+    nk = r.pick([1, 2, 3, 6, 12, 40])
+    ks = sorted(set(r.range(0, 255) for _ in range(nk)))
+    vals = {0: lambda: 0.0, 1: lambda: float(r.range(0, 3000)),
+            2: lambda: r.pick([0.0, 0.5, 1.0, 300.0, 300.9, 1200.0]),
+            3: lambda: r.range(0, 30000) / 10.0}
+    if style == 2:
+        return {k: 0.0 for k in ks}
+    if style == 3:  # increasing with plateau
+        vs = sorted(r.pick([0, 0, 300, 600, 900, 1200, 1200, 1200]) for _ in ks)
+        return dict(zip(ks, [float(v) for v in vs]))
+    if style == 4:
+        return {k: vals[r.below(4)]() for k in ks}
+    if style == 5:
+        return {k: r.pick([-5.0, -0.5, 0.0, 0.9, 1.0, 2.5]) for k in ks}
+    return {k: bits2f(any_float_bits(r)) for k in ks}
+
+
+def gen_fans(r, ncases):
+    ops = []
+    for _ in range(ncases):
+        ops.append("#case fan")
+        kind = r.pick(["hwmon", "hwmon", "hwmon", "file", "cmd"])
+        lim = lambda: r.pick([None, None, r.range(0, 255)])
+        ops.append(f"fan.new kind={kind} ns={r.below(2)} cmin={opt_tok(lim())} cstart={opt_tok(lim())} cmax={opt_tok(lim())}")
+        for _ in range(r.range(1, 5)):
+            k = r.below(5)
+            if k < 3:
+                ops.append(f"fan.attach data={float_map_tok(gen_rpm_data(r))}")
+            elif k == 3:
+                ops.append(f"fan.set which={r.pick(['min', 'start', 'max'])} v={r.range(0, 255)} force={r.below(2)}")
+            else:
+                ops.append("fan.get")
+    return ops
+
+
+# ---------------------------------------------------------------- world (controller)
+
+def resp_tok(r, pwm_map):
+    """device response consistent with a PWM map: reading back what was written for map outputs"""
+    k = r.below(3)
+    if k == 0:
+        return "id"
+    if k == 1:
+        return "q:" + str(r.pick([2, 5, 8, 16]))
+    return "id"
+
+
+def gen_limits(r):
+    bias = [0, 1, 2, 30, 100, 254, 255]
+    a = r.pick(bias + [r.range(0, 255)])
+    b = r.pick(bias + [r.range(0, 255)])
+    return min(a, b), max(a, b)
+
+
+def gen_world_new(r, kind=None, ns=None, loop=None, malformed=False):
+    kind = kind or r.pick(["hwmon", "hwmon", "hwmon", "file"])
+    ns = r.below(2) if ns is None else ns
+    lo, hi = gen_limits(r)
+    cfgmin = r.chance(0.4)
+    pm = gen_pwm_map(r)
+    if malformed and r.chance(0.3):
+        pm = r.pick([None, {}])
+    toks = [f"kind={kind}", f"ns={ns}", f"win={r.pick([1, 2, 3, 10, 10, 50])}"]
+    if kind == "hwmon":
+        if cfgmin:
+            toks.append(f"cmin={lo}")
+        toks.append(f"minp={lo}")
+        if r.chance(0.3):
+            toks.append(f"cmax={hi}")
+        toks.append(f"maxp={hi}")
+        toks.append(f"startp={r.range(lo, hi)}")
+        toks.append(f"avg={fx(r.pick([0.0, 1.0, 300.0, 1000.0, 5000.0]))}")
+        toks.append(f"hasmode={0 if r.chance(0.15) else 1}")
+        toks.append(f"hasrpm={0 if r.chance(0.1) else 1}")
+        toks.append(f"mode={r.pick([0, 1, 2, 2, 3, 5])}")
+    else:
+        toks.append(f"rint={r.pick([0, 0, 1, 300, 1000])}")
+        toks.append(f"hasrpm={0 if r.chance(0.2) else 1}")
+    toks.append("map=" + int_map_tok(pm))
+    toks.append(loop or loop_tok(r))
+    rt = resp_tok(r, pm)
+    toks.append("resp=" + rt)
+    toks.append(f"pwm={r.range(0, 255)}")
+    toks.append(f"rpm={r.pick([0, 0, 500, 1200])}")
+    toks.append(f"origmode={r.pick([-1, 0, 1, 2, 2, 3, 5])}")
+    toks.append(f"origpwm={r.range(0, 255)}")
+    if r.chance(0.2):
+        toks.append(f"last={r.range(0, 255)}")
+    return "w.new " + " ".join(toks)
+
+
+def gen_world_case(r, n_events=40, faults=True, malformed=False, kind=None, ns=None, loop=None, stall_bias=0.5):
+    ops = ["#case w", gen_world_new(r, kind=kind, ns=ns, loop=loop, malformed=malformed)]
+    now = r.range(1, 10**15)
+    curve = r.range(0, 255)
+    stall = False
+    for _ in range(r.range(1, n_events)):
+        k = r.below(100)
+        if k < 50:
+            now += r.pick([0, 1, 50_000_000, 200_000_000, 200_000_000, 2_000_000_000, 3 * 3600 * 10**9])
+            if r.chance(0.3):
+                curve = r.pick([0, 255, r.range(0, 255), r.range(-300, 600)])
+            ctok = str(curve)
+            if faults and r.chance(0.03):
+                ctok = r.pick(["err", "panic"])
+            ops.append(f"w.cycle curve={ctok} now={now}")
+        elif k < 75:
+            ops.append("w.poll")
+        elif k < 83:
+            # RPM script: stall episodes
+            if r.chance(stall_bias):
+                stall = not stall
+            ops.append(f"w.dev rpm={0 if stall else r.pick([300, 800, 1500])}")
+        elif k < 90:
+            # interference
+            t = []
+            if r.chance(0.6):
+                t.append(f"pwm={r.range(0, 255)}")
+            if r.chance(0.6):
+                t.append(f"mode={r.pick([0, 2, 3])}")
+            ops.append("w.dev " + " ".join(t or ["pwm=0"]))
+        elif k < 97 and faults:
+            f = r.pick(["pwmread", "pwmwrite", "moderead", "modewrite", "rpmread"])
+            if f.endswith("read"):
+                v = r.pick(["ok", "ok", "perm", "other:-1", "other:0"])
+            else:
+                v = r.pick(["applied", "applied", "refused", "ignored"])
+            ops.append(f"w.dev {f}={v}")
+        elif k < 99:
+            ops.append(f"w.setpwm t={r.range(-10, 270)}")
+        else:
+            ops.append("w.restore")
+    if r.chance(0.5):
+        ops.append("w.restore")
+    return ops
+
+
+def gen_world(r, ncases, **kw):
+    ops = []
+    for _ in range(ncases):
+        ops += gen_world_case(r, **kw)
+    return ops
